@@ -505,6 +505,7 @@ def run(rep, tier, seed, replay=None):
     feat = collections.Counter()
     nviol = 0
     nvalid = 0
+    seen_findings = set()
     for i, c in enumerate(cases):
         key = clines[i]
         rep.count(key if c["mode"] != "F" else "F " + mlines[i])
@@ -525,7 +526,10 @@ def run(rep, tier, seed, replay=None):
         nvalid += 1
         if finding and not fail:
             if FINDING_UNINIT in known:
-                rep.finding("%s (e.g. case %s)" % (finding, key[:160]))
+                cls = "decode" if finding.startswith("a message decoded") else "fields"
+                if cls not in seen_findings:
+                    seen_findings.add(cls)
+                    rep.finding("match=%s %s (first case: %s)" % (FINDING_UNINIT, finding, key[:160]))
             else:
                 fail = finding
         if fail:
